@@ -82,6 +82,8 @@ func prunedAlphabet() *alphabet {
 		jsPay:   jsPayloadReps, natPay: nativePayloadReps}
 }
 
+const stride = 1000003 // prime, larger than any radix; total*stride < 2^63 for every shape used
+
 type shape struct {
 	a       *alphabet
 	firstJS bool
@@ -130,6 +132,9 @@ func (s *shape) String() string {
 // (a host edge that cannot invoke the first frame, or excluded by the adjacency rule).
 func (s *shape) unrank(idx int64) *Chain {
 	a := s.a
+	// fixed bijection of the rank space (stride coprime to every radix) so that a run cut by the deadline has
+	// still covered every host edge / convention of the shape instead of only the first digits
+	idx = idx * stride % s.total
 	d := make([]int64, len(s.radix))
 	for k, r := range s.radix {
 		d[k] = idx % r
@@ -198,19 +203,17 @@ func kindsOf(fs []failure) string {
 	return strings.Join(ks, "+")
 }
 
+// coarseKey: chains that fail with the same payload, host edge and set of exit conventions are attributed to
+// the verdict found for the first of them (the reduction is not repeated). kinds is deliberately not part
+// of the key: one defect shows in many ways depending on the frames around it.
 func coarseKey(c *Chain, kinds string) string {
-	var em, xm, tm uint
+	var xm uint
 	for i, f := range c.Frames {
-		if f.JS {
-			tm |= 1 << f.Try
-		} else {
-			em |= 1 << f.Entry
-			if i < len(c.Frames)-1 {
-				xm |= 1 << f.Exit
-			}
+		if !f.JS && i < len(c.Frames)-1 {
+			xm |= 1 << f.Exit
 		}
 	}
-	return fmt.Sprintf("%s|%d|%d|%x|%x|%x|%v", kinds, c.Payload, c.Host, em, xm, tm, c.Frames[0].JS)
+	return fmt.Sprintf("%d|%d|%x", c.Payload, c.Host, xm)
 }
 
 // hostOfExit: the host edge that performs the same Go->script convention as a native's exit.
@@ -221,11 +224,13 @@ var hostOfExit = [...]HostEdge{xCallable: hCallable, xNew: hConstruct, xExportFn
 // Reductions only remove frames or replace a convention by the simplest one (or by one that is already in
 // the chain), so a chain is never attributed to a mechanism it does not contain.
 func shrink(c *Chain) *Chain {
+	var en *env // candidates run on a reused runtime while it stays idle and usable; the result is confirmed on fresh ones
 	fails := func(d *Chain) bool {
 		if d.validate() != nil {
 			return false
 		}
-		fs, _ := runChain(d)
+		var fs []failure
+		fs, _, en = runOn(en, d)
 		return len(fs) > 0
 	}
 	cur := c.clone()
@@ -273,7 +278,7 @@ func shrink(c *Chain) *Chain {
 			}
 		}
 		// the simplest payload of the same kind
-		if cur.Payload.isValue() && cur.Payload != pNum {
+		if p := cur.Payload; p.isValue() && p != pNum || p == pRetSentinel || p == pRetWrap || p == pRetJoin || p == pRetNil || p == pException {
 			d := cur.clone()
 			d.Payload = pNum
 			if fails(d) {
@@ -329,9 +334,20 @@ func (rp *reporter) report(c *Chain, fs []failure) {
 	v := rp.memo[key]
 	rp.mu.Unlock()
 	if v == nil {
-		v = confirm(shrink(c), kindsOf(fs))
+		min := shrink(c)
+		rp.mu.Lock()
+		v = rp.memo["min:"+min.String()]
+		rp.mu.Unlock()
+		if v == nil {
+			v = confirm(min, kindsOf(fs))
+			if strings.HasPrefix(v.sig, "nondeterministic|") {
+				// the reduction (on a reused runtime) went astray: report the chain as it was found
+				v = confirm(c, kindsOf(fs))
+			}
+		}
 		rp.mu.Lock()
 		rp.memo[key] = v
+		rp.memo["min:"+min.String()] = v
 		rp.mu.Unlock()
 	}
 	rp.r.Violation(v.sig, v.what, v.c)
@@ -407,7 +423,11 @@ func (w *worker) do(c *Chain) outcome {
 		return out
 	}
 	hist := w.hist
-	w.en, w.hist = nil, nil
+	if w.en = en; en == nil {
+		w.hist = nil
+	} else {
+		w.hist = append(w.hist, c)
+	}
 	if w.rp.known(c, fs) {
 		return out
 	}
@@ -498,7 +518,7 @@ func run(r *core.Run) {
 		fmt.Sscan(v, &gcp)
 	}
 	defer debug.SetGCPercent(debug.SetGCPercent(gcp))
-	r.Assume("every case runs on a fresh runtime with SetMaxCallStackSize(120); natives follow the documented idioms (panic with *Exception / Value / uncatchable error, return error, otherwise panic(NewGoError(err)))")
+	r.Assume("runtimes (SetMaxCallStackSize(120)) are reused for up to 128 consecutive chains as long as they are idle and a probe program runs normally after each chain; a failing chain is re-run on a fresh runtime before it is reported; natives follow the documented idioms (panic with *Exception / Value / uncatchable error, return error, otherwise panic(NewGoError(err)))")
 	r.Assume("the stack-position oracle applies to script throws of non-Error values (throw site, or the outermost rethrow site) and to Error objects created at the throw site; for values raised by natives only identity is judged")
 	r.Assume("after a foreign (non-goja) Go panic reached the host the runtime's state is not judged: the property promises nothing about it")
 	if pf := os.Getenv("C14_PROF"); pf != "" {
@@ -526,50 +546,53 @@ func run(r *core.Run) {
 		}
 	}
 
-	type stage struct {
-		a          *alphabet
-		jMax, nMax int // depth bounds for script-first / native-first chains
-		jMin, nMin int
-	}
-	var stages []stage
-	full := fullAlphabet()
-	if r.Quick() {
-		stages = []stage{{full, 4, 3, 1, 1}}
-	} else {
-		stages = []stage{{full, 4, 4, 1, 1}, {full, 5, 5, 5, 5}, {repsAlphabet(), 6, 6, 6, 6}, {prunedAlphabet(), 8, 7, 7, 7}}
-	}
-	if only := os.Getenv("C14_MAXDEPTH"); only != "" {
-		var d int
-		fmt.Sscan(only, &d)
-		stages = []stage{{full, d, d - 1, 1, 1}}
-	}
-outer:
-	for _, st := range stages {
-		maxD := st.jMax
-		if st.nMax > maxD {
-			maxD = st.nMax
+	full, reps, pruned := fullAlphabet(), repsAlphabet(), prunedAlphabet()
+	var shapes []*shape
+	add := func(a *alphabet, firstJS bool, from, to int) {
+		for d := from; d <= to; d++ {
+			shapes = append(shapes, newShape(a, firstJS, d))
 		}
-		for d := 1; d <= maxD; d++ {
-			for _, firstJS := range []bool{true, false} {
-				lo, hi := st.jMin, st.jMax
-				if !firstJS {
-					lo, hi = st.nMin, st.nMax
-				}
-				if d < lo || d > hi {
-					continue
-				}
-				s := newShape(st.a, firstJS, d)
-				if !runShape(r, rp, s) {
-					complete = false
-					bounds[s.String()] = "cut by the deadline"
-					break outer
-				}
-				bounds[s.String()] = fmt.Sprintf("complete (%d ranks)", s.total)
+	}
+	interleave := func(a *alphabet, maxJ, maxN int) {
+		for d := 1; d <= maxJ || d <= maxN; d++ {
+			if d <= maxJ {
+				add(a, true, d, d)
+			}
+			if d <= maxN {
+				add(a, false, d, d)
 			}
 		}
 	}
+	if sh := os.Getenv("C14_SHAPE"); sh != "" { // development aid: alphabet,J|N,depth
+		var d int
+		parts := strings.Split(sh, ",")
+		fmt.Sscan(parts[2], &d)
+		add(map[string]*alphabet{"full": full, "reps": reps, "pruned": pruned}[parts[0]], parts[1] == "J", d, d)
+	} else if only := os.Getenv("C14_MAXDEPTH"); only != "" { // development aid
+		var d int
+		fmt.Sscan(only, &d)
+		interleave(full, d, d-1)
+	} else if r.Quick() {
+		interleave(full, 4, 3)
+	} else {
+		// by increasing cost; the deadline decides how far the run gets
+		interleave(full, 4, 4)
+		add(full, true, 5, 5)
+		add(reps, true, 6, 6)
+		add(pruned, true, 7, 8)
+		add(reps, false, 5, 5)
+		add(pruned, false, 6, 7)
+	}
+	for _, s := range shapes {
+		if !runShape(r, rp, s) {
+			complete = false
+			bounds[s.String()] = "cut by the deadline"
+			break
+		}
+		bounds[s.String()] = fmt.Sprintf("complete (%d ranks)", s.total)
+	}
 	if verbose {
-		fmt.Fprintln(os.Stderr, "discarded runtimes without failure:", discards.Load(), discardWhy)
+		fmt.Fprintln(os.Stderr, "discarded runtimes without failure:", discards.Load(), discardWhy, "memo entries:", len(rp.memo))
 	}
 	r.Set("bounds_completed", bounds)
 	r.Exhaustive(complete)
@@ -613,4 +636,6 @@ var regressionCorpus = []CaseJSON{
 	// the same two defects seen from inside a chain (a native calls the ExportTo'd func, the panic crosses script frames)
 	{Host: "run", Frames: []string{"js:catch+finally", "go:fcall>exportfn_err", "js:none"}, Payload: "{value:null}"},
 	{Host: "callable", Frames: []string{"js:catch", "go:reflerr>exportfn_err", "js:finally"}, Payload: "{get value(){throw}}"},
+	{Host: "run", Frames: []string{"go:fcall>forof-step/return-throws", "js:none"}, Payload: "num"},
+	{Host: "try(get)", Frames: []string{"js:catch", "go:dyn>forof-step/return-throws", "js:none"}, Payload: "Error-subclass"},
 }
